@@ -48,6 +48,16 @@ func c07RandReqs(rnd *verifh.Rand, w *c07World, tab []c07Ent, avoidLimited bool)
 
 // the context of an open: 1 = made with network.WithAllowLimitedConn
 func c07Mode(rnd *verifh.Rand, w *c07World, out *verifh.Out) int64 {
+	m := c07AllowMode(rnd, w, out)
+	// bit1: the application goes on exchanging bytes later (costs a sleep of
+	// the negotiation timeout in the world where that is short)
+	if (w.negto > 0 && rnd.Chance(1, 9)) || (w.negto == 0 && rnd.Chance(1, 4)) {
+		m |= 2
+	}
+	return m
+}
+
+func c07AllowMode(rnd *verifh.Rand, w *c07World, out *verifh.Out) int64 {
 	if w.limited {
 		if rnd.Chance(19, 20) {
 			out.Cover("open.limited_conn.allowed")
@@ -119,7 +129,7 @@ func c07Case(out *verifh.Out, w *c07World, rnd *verifh.Rand, nops int) {
 		case c < 84:
 			q := c07RandReqs(rnd, w, tab, false)
 			mode := c07Mode(rnd, w, out)
-			if mode == 1 || !w.limited {
+			if mode&1 == 1 || !w.limited {
 				r.coverOpen(tab, know, q)
 			}
 			r.batch([][]int64{q}, []int64{mode}, rnd)
@@ -136,6 +146,43 @@ func c07Case(out *verifh.Out, w *c07World, rnd *verifh.Rand, nops int) {
 			out.CoverN("batch.concurrent.opens", int64(n))
 			r.batch(qs, modes, rnd)
 			know = r.lastKnow
+		case c < 94 && w.kind != 2 && w.kind != 3:
+			// (the relay world would need a new reservation; a BlankHost listener does not answer identify)
+			if rnd.Chance(1, 2) && len(tab) > 0 {
+				// scripted prelude: the dialer knows what is served, then a served name goes away
+				// and maybe another one appears
+				know = names()
+				r.setKnowledge(know)
+				oldNames = append(oldNames, names())
+				r.removeHandler(&tab, tab[rnd.Intn(len(tab))].name)
+				if rnd.Chance(2, 3) {
+					r.addHandler(&tab, int64(rnd.Intn(c07U)), nil, nil)
+				}
+				out.Cover("reconnect.after_known_handler_removed")
+			}
+			wait := int64(rnd.Intn(3) / 2) // mostly racing
+			stale := know
+			r.reconnect(int64(rnd.Intn(2)), wait)
+			know = names()
+			if wait == 0 {
+				// the very next thing is an open: it must wait for identify, not trust old knowledge
+				var q []int64
+				for _, p := range stale {
+					if len(q) < 2 && rnd.Chance(2, 3) {
+						q = append(q, p)
+					}
+				}
+				q = append(q, c07RandReqs(rnd, w, tab, false)...)
+				if len(q) > 4 {
+					q = q[:4]
+				}
+				if len(q) > 0 && c07Has(stale, q[0]) && c07FirstMatch(tab, q[0]) == nil {
+					out.Cover("reconnect.open_prefers_stale_unserved_id")
+				}
+				r.coverOpen(tab, know, q)
+				r.batch([][]int64{q}, []int64{1}, rnd)
+				know = r.lastKnow
+			}
 		default:
 			var slot int64 = int64(rnd.Intn(int(r.nslot) + 1))
 			for s := range r.slots {
@@ -165,6 +212,8 @@ func c07Worlds(t *testing.T) []*c07World {
 		c07NewWorld(t, 1, c07NoLimits(), c07NoLimits()),
 		c07NewWorld(t, 1, limD, limL),
 		c07NewWorld(t, 2, limD, limL),
+		c07NewWorld(t, 3, c07NoLimits(), c07NoLimits()),
+		c07NewWorld(t, 4, c07NoLimits(), c07NoLimits()),
 	}
 }
 
@@ -216,6 +265,9 @@ func TestVerifC07Replay(t *testing.T) {
 	if in[2]&2 == 2 {
 		kind = 2
 	}
+	if in[1] == 3 || in[1] == 4 {
+		kind = in[1]
+	}
 	w := c07NewWorld(t, kind, append([]int64{}, in[4:4+c07U]...), append([]int64{}, in[4+c07U:4+2*c07U]...))
 	defer w.close()
 	rnd := verifh.NewRand(verifh.Seed())
@@ -266,6 +318,11 @@ func TestVerifC07Replay(t *testing.T) {
 		case 6:
 			r.closeSlot(in[i+1], in[i+2])
 			i += 3 + 2*c07U
+		case 7:
+			r.reconnect(in[i+1], in[i+2])
+			i += 3
+			skipList()
+			i += 2 * c07U
 		default:
 			t.Fatalf("bad op code %d at %d", in[i], i)
 		}
